@@ -15,6 +15,7 @@
    checked at its check block by >= f+1 nodes, no empty report, freedom from data races
    (-race build), and the renderer of the progress library collecting every finished tracker. *)
 From Verif Require Import Base.Util Model.SimChain Model.SimVerdict Proofs.SimVerdictProofs.
+From Verif Require Import Base.GenIR Gen.Generated Gen.GeneratedTr Proofs.GenTrSimVerdict.
 Open Scope Z_scope.
 
 (* The repaired summary statistics never panic, whatever the checks-per-id data. *)
@@ -187,6 +188,81 @@ Theorem C20_plan_checker_sound :
   forall p dec rest, C20_plan_check p dec rest = true -> dec = Some (normalize p) /\ rest = true.
 Proof. exact C20_plan_check_sound. Qed.
 Print Assumptions C20_plan_checker_sound.
+
+Section GenTie.
+Local Open Scope Z_scope.
+(* ---- Tie to the source by translation (Gen/GeneratedTr.v, regenerated from /repo on every run by gen/translate.go) ----
+   g_* are the decision terms translated from the CURRENT Go code: every condition, the branch structure and which
+   white-listed effect statement runs on which path.  The theorems below state that the model's functions - about
+   which every theorem above speaks - are the interpretation of these terms. *)
+(* logTriggersUpkeep: the model's log_triggers is the translated function (log not older than the upkeep, same trigger value, always eligible or an eligibility block at or after the log) *)
+Theorem C20_gen_log_triggers_upkeep :
+  forall l u, log_triggers l u = log_triggers_gen l u.
+Proof. exact gen_sim_log_triggers. Qed.
+Print Assumptions C20_gen_log_triggers_upkeep.
+
+(* calculateExpectedPerformEvents: the model's count is the fold of the translated loop bodies (skip unless expected; conditional: one per eligibility block; log trigger: one per triggering log), with the type tags read from the source *)
+Theorem C20_gen_expected_performs :
+  forall ups logs, expected_performs ups logs = fold_left (exp_step logs) ups 0.
+Proof. exact gen_sim_expected. Qed.
+Print Assumptions C20_gen_expected_performs.
+
+(* calculateExpectedPerformEvents: a generation error is returned before any counting *)
+Theorem C20_gen_expected_performs_errors :
+  forall e2,
+  g_sim_expected true e2 = ([], RetO 1) /\ g_sim_expected false true = ([], RetO 1) /\ g_sim_expected false false = ([1], RetO 0).
+Proof. exact gen_sim_expected_outer. Qed.
+Print Assumptions C20_gen_expected_performs_errors.
+
+(* countPerformEvents: an undecodable report counts for nothing *)
+Theorem C20_gen_count_performs :
+  forall n, g_sim_count_performs true n = ([], RetZ 0) /\ g_sim_count_performs false n = ([], RetZ n).
+Proof. exact gen_sim_count_performs. Qed.
+Print Assumptions C20_gen_count_performs.
+
+(* ProgressTelemetry.track, one turn of the loop (select over the increment channel and the closed done channel): the model's trk_step is the interpretation of the translated body for a tracker that is still running *)
+Theorem C20_gen_tracker_step :
+  forall t m,
+  k_done t = false -> k_failed t = false -> (k_total t <> 0 -> k_value t <> k_total t) ->
+  trk_step t m = track_body_gen t m.
+Proof. exact gen_sim_track_body. Qed.
+Print Assumptions C20_gen_tracker_step.
+
+(* the precondition of C20_gen_tracker_step is an invariant of the loop *)
+Theorem C20_tracker_running_invariant :
+  forall t m, trk_running_inv t -> trk_running_inv (trk_step t m).
+Proof. exact trk_inv_step. Qed.
+Print Assumptions C20_tracker_running_invariant.
+
+(* ProgressTelemetry.track, set-up: a zero total makes the tracker a negative assertion *)
+Theorem C20_gen_tracker_setup :
+  forall total, g_sim_track total = if total =? 0 then ([1; 2; 3], Fall) else ([2; 3], Fall).
+Proof. exact gen_sim_track. Qed.
+Print Assumptions C20_gen_tracker_setup.
+
+(* findMedianAndSplitData (repaired code): no data / even / odd length decisions and index arithmetic as in the model's fms *)
+Theorem C20_gen_median_split :
+  forall v, fms true v = median_split_gen v.
+Proof. exact gen_sim_median_split. Qed.
+Print Assumptions C20_gen_median_split.
+
+(* findLowestAndOutliers: the loop with its MaxInt sentinel computes the model's filter-and-minimum *)
+Theorem C20_gen_lowest_outliers :
+  forall f4 set,
+  Forall (fun x => x < maxint) set ->
+  lowest_outliers f4 set =
+  let '(lo, c) := fold_left (low_step (Z.quot f4 4)) set (maxint, 0) in ((if lo =? maxint then -1 else lo), c).
+Proof. exact gen_sim_lowest. Qed.
+Print Assumptions C20_gen_lowest_outliers.
+
+(* findHighestAndOutliers: the loop computes the model's filter-and-maximum *)
+Theorem C20_gen_highest_outliers :
+  forall f4 set,
+  highest_outliers f4 set = fold_left (high_step (Z.quot f4 4)) set (-1, 0).
+Proof. exact gen_sim_highest. Qed.
+Print Assumptions C20_gen_highest_outliers.
+
+End GenTie.
 
 (* Non-vacuity: four ids (the case that crashed a real run) give a summary; three performs
    against an expectation of three succeed and two do not; an untouched negative assertion
